@@ -483,6 +483,11 @@ func Document(r *core.Rand, o Opts) *Out {
 			for startsBlank(line) || indentLike(line) {
 				line = "x" + line
 			}
+			if !(k == 0 && o.IDs) && r.Chance(1, 30) {
+				// a summary line that would be an entry if its first, invisible character were not there
+				line = r.Pick("\u200b", "\ufeff", "\u2060", "\u00ad") + r.Pick("    ", "\t", "  ") + r.Pick("2h", "30m", "8:00 - 9:00", "-15m") + " " + line
+				out.feat("invisible_then_entry_like")
+			}
 			if o.TrailingBlank && r.Chance(1, 6) {
 				line += r.Pick(" ", "  ", "\t", " \t")
 				out.feat("trailing_blanks")
